@@ -229,12 +229,16 @@ func (g *lgen) garbage() cmdJ {
 		}
 		return d
 	}
-	switch r.IntN(8) {
+	switch vh.Pick(r, 0, 1, 1, 1, 2, 3, 4, 5, 6, 7) {
 	case 0:
 		b = vh.Bytes(r, r.IntN(12))
-	case 1: // truncated valid command
+	case 1: // truncated valid command; half of the time exactly the last byte is missing
 		v := valid()
-		b = v[:r.IntN(len(v)+1)]
+		if len(v) > 2 && vh.Chance(r, 0.5) {
+			b = v[:len(v)-1]
+		} else {
+			b = v[:r.IntN(len(v)+1)]
+		}
 	case 2: // one flipped byte
 		v := valid()
 		if len(v) > 0 {
@@ -435,7 +439,21 @@ func thinFatal(r *rand.Rand, cfg cfgJ, ops []cmdJ, keepOne bool) []cmdJ {
 			sid++
 		}
 		idx++
-		if _, err := w.applyRaw([]multiraft.Command{{SlotID: sid, HashSlot: c.hs(), Index: idx, Term: 1, Data: data}}); err != nil {
+		failed := false
+		func() {
+			defer func() {
+				if recover() != nil {
+					// a panic of the implementation: Run will meet it again inside vh.Main's recover
+					failed = true
+					abandonHandles()
+					w = newSrcWorld(0, cfg, true)
+				}
+			}()
+			if _, err := w.applyRaw([]multiraft.Command{{SlotID: sid, HashSlot: c.hs(), Index: idx, Term: 1, Data: data}}); err != nil {
+				failed = true
+			}
+		}()
+		if failed {
 			fatal = append(fatal, i)
 			idx--
 		}
